@@ -262,13 +262,51 @@ class C07(CheckBase):
         case = {'image': image, 'ops': ops, 'gz': gzmode, 'gz_ops': self.gen_ops(rng, 'gz', 2000)[:2] if gzmode == 'damaged' else [],
                 'cmd': self.gen_command(rng, image), 'globals': self.gen_globals(rng),
                 'second_image': rng.chance(0.08),
+                'pre_images': [],
                 'stem': rng.choice(['img', 'img', 'img', 'disc.v2', 'a.b.c', 'my disc', '-dash', 'IMG.SSD']),
                 'build': rng.weighted([(5, 'asan'), (4, 'rel')] + ([(2, 'dbg'), (3, 'asan-dbg')] if tier == 'thorough' else [(1, 'asan-dbg')])),
                 'fault': rng.weighted([(12, None), (1, 'openfail'), (3, 'rfail'), (1, 'tmp_createfail'), (1, 'tmp_wfail'), (1, 'closefail')]),
                 'fpos': rng.below(1000), 'errno': rng.choice(['EIO', 'EACCES', 'EMFILE', 'ENOMEM', 'EISDIR', 'ENOSPC'])}
+        if src == 'generated' and rng.chance(0.12):
+            # several discs attached at once, some of them formatted but empty, and a command that walks a list of
+            # drives (space, show-titles) or one that is pointed at a later drive: per-drive state must not leak
+            # from one drive to the next
+            for _ in range(rng.randint(1, 3)):
+                sj = dd.gen_surface(rng, variant=rng.choice(['acorn', 'acorn', 'watford']), img_id=9, geom=(40, 10)).to_json()
+                if rng.chance(0.4):
+                    for v in sj['volumes']:
+                        v['files'] = []
+                case['pre_images'].append(sj)
+            if rng.chance(0.4):
+                for sj in image['surfaces']:
+                    for v in sj['volumes']:
+                        v['files'] = []
+            ndrv = len(case['pre_images']) + 1
+            drives = [str(rng.below(ndrv + 1)) for _ in range(rng.randint(1, 4))] if rng.chance(0.3) else [str(d) for d in range(ndrv)]
+            pick = rng.below(5)
+            if pick <= 1:
+                case['cmd'] = ['space'] + drives
+            elif pick == 2:
+                case['cmd'] = ['show-titles'] + drives
+            elif pick == 3:
+                case['cmd'] = [rng.choice(['cat', 'free', 'sector-map', 'info']), drives[-1] if rng.chance(0.5) else str(ndrv - 1)]
+                if case['cmd'][0] == 'info':
+                    case['cmd'][1] = ':%s.*.*' % case['cmd'][1]
         return case
 
     # ---------------------------------------------------------------- execution
+    def attach_prefix(self, case):
+        """Images attached before the one under test: (files for the sandbox, argv words)."""
+        files = {}
+        argv = []
+        if case.get('second_image'):
+            files['second.ssd'] = dfswork.render_image({'ext': 'ssd', 'surfaces': [SECOND]}) if SECOND else b''
+            argv += ['--file', 'second.ssd']
+        for i, sj in enumerate(case.get('pre_images') or []):
+            files['pre%d.ssd' % i] = dfswork.render_image({'ext': 'ssd', 'surfaces': [sj]})
+            argv += ['--file', 'pre%d.ssd' % i]
+        return files, argv
+
     def materialise(self, case):
         image = case['image']
         if 'random' in image:
@@ -292,9 +330,9 @@ class C07(CheckBase):
         sb = ctx.sb
         files = {name: data, 'out': None}
         argv = ['dfs']
-        if case.get('second_image'):
-            files['second.ssd'] = dfswork.render_image({'ext': 'ssd', 'surfaces': [SECOND]}) if SECOND else b''
-            argv += ['--file', 'second.ssd']
+        pf, pa = self.attach_prefix(case)
+        files.update(pf)
+        argv += pa
         sb.reset(files)
         argv += ['--file', name] + case['globals'] + case['cmd']
         build = case['build']
@@ -374,6 +412,12 @@ class C07(CheckBase):
             yield dict(case, fault=None)
         if case.get('second_image'):
             yield dict(case, second_image=False)
+        pre = case.get('pre_images') or []
+        for i in range(len(pre)):
+            yield dict(case, pre_images=pre[:i] + pre[i + 1:])
+        for i in range(len(pre)):
+            if any(v['files'] for v in pre[i]['volumes']):
+                yield dict(case, pre_images=pre[:i] + [dict(pre[i], volumes=[dict(v, files=v['files'][:len(v['files']) // 2]) for v in pre[i]['volumes']])] + pre[i + 1:])
         if case['globals']:
             yield dict(case, globals=[])
             for i in range(len(case['globals'])):
